@@ -686,7 +686,34 @@ def sample_atoms(E):
     multi = st.lists(st.sampled_from(P["active"]), min_size=3, max_size=6, unique=True).flatmap(
         lambda syms: st.lists(count, min_size=len(syms), max_size=len(syms)).map(
             lambda cs: [[[sy, 0, 0], c] for sy, c in zip(syms, cs)]))
-    return st.one_of(free, free, free, related, multi, multi)
+    # mixed valence: one element (or one of its isotopes) in two or three DIFFERENT ion charge states, with or without
+    # the neutral atom and a bystander (magnetite Fe{2+}Fe{3+}2O4): every charge state is a contribution of its own
+    multivalent = [s for s in P["active"] if len(E.table.symbol(s).ions) >= 2]
+    iso_of_sym = {}
+    for sy, a, _ in P["iso"]:
+        iso_of_sym.setdefault(sy, []).append(a)
+
+    def valence(t):
+        sy, pick, cs, cnts, use_iso, neutral, extra = t
+        ions = list(E.table.symbol(sy).ions)
+        chosen = []
+        for k in cs:
+            c = ions[k % len(ions)]
+            if c not in chosen:
+                chosen.append(c)
+        if len(chosen) < 2:
+            chosen = ions[:2]
+        a = iso_of_sym[sy][pick % len(iso_of_sym[sy])] if (use_iso and sy in iso_of_sym) else 0
+        atoms = [[[sy, a, c], cnts[i % len(cnts)]] for i, c in enumerate(chosen)]
+        if neutral:
+            atoms.insert(1, [[sy, a, 0], cnts[-1]])
+        if extra is not None:
+            atoms.append([[extra, 0, 0], cnts[0]])
+        return atoms
+    mixed = st.tuples(st.sampled_from(multivalent), st.integers(0, 50), st.lists(st.integers(0, 9), min_size=2, max_size=3),
+                      st.lists(count, min_size=3, max_size=3), st.booleans(), st.booleans(),
+                      st.one_of(st.none(), st.sampled_from(P["active"] + ["O", "O", "S"]))).map(valence)
+    return st.one_of(free, free, free, related, multi, multi, mixed, mixed)
 
 
 def resolve(E, spec):
